@@ -377,7 +377,7 @@ func genAddTo() (lean string, rows int, err error) {
 	sb.WriteString("/-- `Field.AddTo`: the calls the encoder receives, or `.error` when it panics -/\n")
 	sb.WriteString("@[simp] def addTo (f : Fld) (r : Option Bytes) : Except String (List Call) :=\n  bindE (addToArm f.key f.integer f.str f.iface r f.ty) fun ce => .ok (ce.1 ++ errTail f.key ce.2)\n\n")
 	sb.WriteString("/-- what each arm expects in `f.Interface`: `none` = unused, `\"any\"` = passed on as it is, else the asserted type -/\n")
-	sb.WriteString("@[simp] def ifaceType : FT → Option String\n")
+	sb.WriteString("def ifaceType : FT → Option String\n")
 	for _, n := range fieldTypeNames {
 		ft, _ := ftOf(n + "Type")
 		if t, ok := x.iface[n]; ok {
